@@ -28,6 +28,7 @@
 #include "vh.hpp"
 
 #include <algorithm>
+#include <cfloat>
 #include <map>
 #include <set>
 #include <signal.h>
@@ -59,6 +60,9 @@ struct Case {
   std::vector< CV > samples;
   int worksize;
   double param; // family specific (sigma, amplitude, ...)
+  int lattice_kind; // 0 cubic, 1 rectangular, 2 bcc, 3 fcc (lattice families)
+  double amp_abs;   // perturbed lattice: displacement amplitude (length)
+  bool moved_by_rule_B;
 };
 
 struct FaceRec {
@@ -93,6 +97,20 @@ static bool g_nofork = false; // debugging aid: run the construction in this pro
 static uint64_t g_slowcap = 400;
 static uint64_t g_wallcap = 150; // wall family: its genuine hangs are frequent, each costs a full watchdog
 static double g_cpu_factor = 1.;  // watchdog scale (sanitizer builds are slower)
+// Input rules (see main): regimes that are diagnosed as broken in the code under test and not repaired are kept out of the
+// RANDOM part by a rule on the generated input (never on the outcome); the pinned witnesses keep exercising them.
+//   A  new construction only for boxes whose rescaled big-tetrahedron corners are inside [1,2)
+//   B  every generator at least 1e-5 side away from every wall
+//   C  no bcc lattice in a box with three equal sides for the new construction
+//   O  old construction only if the smallest generator separation is >= 20 sqrt(OLDVORONOI_TOLERANCE) |box sides|
+//      (below sqrt(tol)|S| the documented vertex tolerance eps_old/|p| exceeds the half separation |p| itself: whole cells
+//      are "in the plane", the construction runs off its edge lists; c = 20 keeps the tolerance below 1% of |p|)
+//   D  old construction only on lattices displaced by >= 10 delta (delta = its allowed vertex displacement): a set that is
+//      degenerate within the documented tolerance is a degenerate set for the old construction, and exactly degenerate input
+//      is only demanded of the new one
+static std::string g_avoid;
+static int64_t g_pinned = -1;
+static bool avoid(char r) { return g_pinned < 0 && g_avoid.find(r) != std::string::npos; }
 static int g_selftest = 0;      // oracle self-test: corrupt the data returned by the real code before judging it (see --selftest)
 static double g_xparam = 0.;  // exploration aid: overrides sigma / amplitude / wall distance
 
@@ -106,9 +124,9 @@ static double gauss(vh::Rng &r) {
   return std::sqrt(-2. * std::log(u1)) * std::cos(6.283185307179586 * u2);
 }
 
-// force strictly inside the box (at least 1e-12 of the side away from a wall)
-static double clampin(double x, double a, double s) {
-  const double lo = a + s * 1e-12, hi = a + s * (1. - 1e-12);
+// force strictly inside the box (at least margin x side away from a wall)
+static double clampin(double x, double a, double s, double margin) {
+  const double lo = a + s * margin, hi = a + s * (1. - margin);
   if (!(x > lo)) x = lo;
   if (!(x < hi)) x = hi;
   return x;
@@ -131,6 +149,9 @@ static void make_case(Case &c, uint64_t id, uint64_t idx, vh::Rng r, uint64_t fo
   c.famkey = FAMNAME[c.fam];
   c.regname = std::string(FAMNAME[c.fam]) + REGNAME[c.fam][c.reg];
   c.param = 0.;
+  c.lattice_kind = -1;
+  c.amp_abs = -1.;
+  c.moved_by_rule_B = false;
   // independent streams: forcing the family / regime / size of a case (pinned witnesses) does not change its box or positions
   vh::Rng rbox = r.fork(11), rsize = r.fork(12), rpos = r.fork(13), rsmp = r.fork(14);
   // ---- box ----
@@ -270,6 +291,7 @@ static void make_case(Case &c, uint64_t id, uint64_t idx, vh::Rng r, uint64_t fo
   case PLATTICE: {
     // 0 cubic, 1 rectangular, 2 bcc, 3 fcc
     const int kind = (c.fam == LATTICE) ? (c.reg == 0 ? 0 : (c.reg == 1 ? 2 : (rpos.chance(0.5) ? 3 : 1))) : 0;
+    c.lattice_kind = kind;
     const uint64_t per = kind == 2 ? 2 : (kind == 3 ? 4 : 1);
     uint64_t m[3];
     if (kind == 1) {
@@ -294,6 +316,7 @@ static void make_case(Case &c, uint64_t id, uint64_t idx, vh::Rng r, uint64_t fo
     double amp = (c.fam == PLATTICE) ? rpos.loguniform(alo[c.reg], ahi[c.reg]) : 0.;
     if (g_xparam > 0. && c.fam == PLATTICE) amp = g_xparam;
     c.param = amp;
+    if (c.fam == PLATTICE) c.amp_abs = amp * std::min(c.s[0] / (double)m[0], std::min(c.s[1] / (double)m[1], c.s[2] / (double)m[2]));
     static const double off1[1][3] = {{0.5, 0.5, 0.5}};
     static const double off2[2][3] = {{0.25, 0.25, 0.25}, {0.75, 0.75, 0.75}};
     static const double off4[4][3] = {{0.25, 0.25, 0.25}, {0.75, 0.75, 0.25}, {0.75, 0.25, 0.75}, {0.25, 0.75, 0.75}};
@@ -318,7 +341,7 @@ static void make_case(Case &c, uint64_t id, uint64_t idx, vh::Rng r, uint64_t fo
   }
   case WALL: {
     const double frac = c.reg == 0 ? 1. : (c.reg == 1 ? rpos.uniform(0.2, 0.6) : 0.);
-    std::snprintf(buf, sizeof buf, "near-wall fraction=%.2f distance=[1e-12,1e-9]*side", frac);
+    std::snprintf(buf, sizeof buf, "near-wall fraction=%.2f distance=%s*side", frac, g_xparam > 0. ? "xparam" : (avoid('B') ? "[1e-5,1e-3]" : "[1e-12,1e-9]"));
     c.sub = buf;
     c.param = frac;
     for (uint64_t i = 0; i < n; ++i) {
@@ -329,6 +352,7 @@ static void make_case(Case &c, uint64_t id, uint64_t idx, vh::Rng r, uint64_t fo
         for (int q = 0; q < npin; ++q) {
           const int k = (int)rpos.below(3);
           double eps = rpos.loguniform(1e-12, 1e-9);
+          if (avoid('B')) eps = std::pow(eps * 1e12, 2. / 3.) * 1e-5; // rule B: same draw mapped to [1e-5, 1e-3]
           if (g_xparam > 0.) eps = g_xparam;
           x[k] = rpos.chance(0.5) ? c.a[k] + c.s[k] * eps : c.a[k] + c.s[k] * (1. - eps);
         }
@@ -339,8 +363,12 @@ static void make_case(Case &c, uint64_t id, uint64_t idx, vh::Rng r, uint64_t fo
   }
   }
   // strictly inside, distinct
-  for (size_t i = 0; i < p.size(); ++i)
-    p[i] = CV(clampin(p[i].x(), c.a[0], c.s[0]), clampin(p[i].y(), c.a[1], c.s[1]), clampin(p[i].z(), c.a[2], c.s[2]));
+  const double margin = avoid('B') ? 1e-5 : 1e-12;
+  for (size_t i = 0; i < p.size(); ++i) {
+    const CV q(clampin(p[i].x(), c.a[0], c.s[0], margin), clampin(p[i].y(), c.a[1], c.s[1], margin), clampin(p[i].z(), c.a[2], c.s[2], margin));
+    if (avoid('B') && (q.x() != p[i].x() || q.y() != p[i].y() || q.z() != p[i].z())) c.moved_by_rule_B = true;
+    p[i] = q;
+  }
   {
     std::set< std::vector< double > > seen;
     std::vector< CV > q;
@@ -554,23 +582,48 @@ static void run_grid(const Case &c, int ctor, GridRec &g) {
 //    not make the Voronoi problem ill conditioned.
 //  * a boundary displaced by t changes a face area by <= t * perimeter, a volume by <= t * surface,
 //    a face midpoint by <= t * perimeter * diameter / area, a centroid by <= t * surface * h / volume.
-//  * the old construction documents an absolute vertex tolerance: a vertex v with
-//    |v.p - p.p| <= OLDVORONOI_TOLERANCE * |box sides|^2 (p = half the separation vector) is
-//    taken to lie IN the plane, i.e. vertices up to eps_old/|p| off a plane are by design.
-//    That documented displacement is granted to the old construction in the local face
-//    clauses only - never in the partition clauses (volume sum, wall area) nor in the
-//    old-vs-new agreement of volumes and centroids.
+//  * the OLD construction is approximate by design.  OldVoronoiCell documents an absolute
+//    vertex tolerance: a vertex v (relative to the generator) with
+//        |v.p - p.p| <= eps_old = OLDVORONOI_TOLERANCE * |box sides|^2      (p = half the separation vector)
+//    "is considered to lie inside the plane", i.e. it is neither cut off nor moved, although
+//    it is up to eps_old/|p| away from the bisector plane.  The smallest |p| of a cell is half
+//    the distance nn_i to its nearest generator, so every plane bounding cell i may be
+//    misplaced, as seen from a vertex, by
+//        d_i = eps_old / (nn_i / 2) = 2 * OLDVORONOI_TOLERANCE * |S|^2 / nn_i .
+//    A vertex is the intersection of three planes with unit normals n1,n2,n3; offsets uncertain
+//    by d move it by <= sqrt(3) |N^-1| d, N = (n1;n2;n3); for the dihedral angles of Voronoi
+//    cells (60..120 degrees) sqrt(3)|N^-1| is 2..4.  Allowed vertex displacement of the old
+//    construction (in addition to t_i):   delta_i = 4 d_i = 8 tol |S|^2 / nn_i .
+//    Consequences (boundary displaced by delta over the surface S_i of a cell of size h_i):
+//        volume of a cell      |dV_i| <= delta_i S_i        (relative: kappa_i delta_i / h_i, kappa_i = S_i h_i / V_i >= 5)
+//        sum of the volumes    |sum V - V_box| <= sum_i delta_i S_i
+//        centroid              |dc_i| <= delta_i S_i h_i / V_i = kappa_i delta_i
+//        area of a face        |dA_f| <= delta P_f  (P_f its perimeter; delta of the two cells sharing it, whichever is larger)
+//        face midpoint         <= delta P_f diam_f / A_f ; vertices off their plane / outside the box: <= delta
+//    These allowances are applied to every clause of the old construction and, with the
+//    delta_i of the old cell, to the old-vs-new agreement.  nn_i comes from the INPUT (brute
+//    force), not from the faces the construction reports.  Example: 1048 uniform generators in
+//    a cube of side L: nn ~ 0.05 L, delta = 8*2e-10*3 L^2/(0.05 L) ~ 1e-7 L = 1e-6 h: a volume
+//    difference of 1e-8 is far inside the design accuracy.  What the allowance never covers:
+//    crashes and hangs, non-positive or non-finite volumes, faces towards invalid neighbours,
+//    and errors above it (for separations below ~sqrt(tol)|S| delta exceeds the cell itself;
+//    such inputs are outside what the old construction can resolve, see the input rules).
 //  * areas: 1e-8 relative (stated), negligible faces: area <= 1e-10 * (box volume)^(2/3) (stated); area
 //    differences below that threshold are negligible too (a sliver one cell resolves and its neighbour does not).
 
 struct Geo {
   LD a[3], s[3];
   LD vbox, ascale, amin, lmax, diag, boxsurf, quantum, eps_old;
-  std::vector< LD > x; // 3n generators
+  std::vector< LD > x;  // 3n generators
+  std::vector< LD > nn; // distance of every generator to its nearest generator (brute force)
+  LD nnmin;
 };
 
-static std::string gkey(const char *group, int ctor, const std::string &famkey) {
-  return std::string(group) + "/" + (ctor < 2 ? CTOR[ctor] : "old-vs-new") + "/" + famkey;
+// random part: <clause>/<construction>/<family>;  pinned witness k: pinned-<k>/<clause>/<construction>
+static std::string gkey(const std::string &clause, int ctor, const std::string &famkey) {
+  const std::string cn = ctor < 2 ? CTOR[ctor] : "old-vs-new";
+  if (g_pinned >= 0) return "pinned-" + std::to_string(g_pinned) + "/" + clause + "/" + cn;
+  return clause + "/" + cn + "/" + famkey;
 }
 
 // at most 2 printed violations per (case, construction, clause); all are counted
@@ -579,11 +632,12 @@ static uint64_t g_all_viol = 0; // every violation, printed or not
 static std::string g_replay;     // command line arguments that reproduce the run (the case is added per violation)
 #define C15_VIOL(group, ctor, cs, clause, ...)                                                    \
   do {                                                                                             \
-    std::string k_ = gkey((group), ctor, (cs).famkey);                                                \
     const std::string cl_ = (clause);                                                              \
+    (void)(group);                                                                                 \
+    std::string k_ = gkey(cl_, ctor, (cs).famkey);                                                              \
     ++g_all_viol;                                                  \
     st.inc(std::string("violations_") + cl_ + "_" + (ctor < 2 ? CTOR[ctor] : "old-vs-new"));                                \
-    if (g_clause_count[k_ + "/" + cl_ + "/" + std::to_string((cs).id)]++ < 2) {                 \
+    if (g_clause_count[k_ + "/" + std::to_string((cs).id)]++ < 2) {                 \
       char b_[1400];                                                                               \
       std::snprintf(b_, sizeof b_, __VA_ARGS__);                                                   \
       VH_VIOL(k_.c_str(), (cs).id, "clause=%s n=%zu %s [%s: %s; sides %.4g %.4g %.4g] {replay: c15_voronoi%s --only %" PRIu64 "}",   \
@@ -651,8 +705,8 @@ static const FaceRec *find_face(const CellRec &c, uint32_t ngb) {
 static const LD REL_LEN = 1e-9L;
 static const LD REL_AREA = 1e-8L;
 
-// documented vertex displacement of the old construction for a plane at distance dist
-static LD old_slack(const Geo &G, int ctor, LD dist) { return (ctor == 1 && dist > 0) ? 1.01L * G.eps_old / dist : 0; }
+// allowed vertex displacement delta_i of the old construction (see the derivation above; eps_old = tol |S|^2)
+static LD old_slack(const Geo &G, int ctor, size_t i) { return (ctor == 1 && G.nn[i] > 0) ? 8.0L * G.eps_old / G.nn[i] : 0; }
 
 static bool eval_grid(const Case &c, const Geo &G, const GridRec &g, int ctor, std::vector< CellGeo > &cg) {
   const size_t n = c.pos.size();
@@ -680,7 +734,7 @@ static bool eval_grid(const Case &c, const Geo &G, const GridRec &g, int ctor, s
   for (size_t i = 0; i < n; ++i) {
     const CellRec &cl = g.cells[i];
     CellGeo &q = cg[i];
-    q.h = 0; q.surf = 0; q.dmin = -1; q.slack = 0;
+    q.h = 0; q.surf = 0; q.dmin = -1; q.slack = old_slack(G, ctor, i);
     for (size_t f = 0; f < cl.faces.size(); ++f) {
       const FaceRec &fr = cl.faces[f];
       if (fr.area > 0 && std::isfinite(fr.area)) q.surf += fr.area;
@@ -692,7 +746,6 @@ static bool eval_grid(const Case &c, const Geo &G, const GridRec &g, int ctor, s
       LD nrm[3], dist;
       if (face_plane(G, n, i, fr.ngb, nrm, dist)) {
         if (fr.ngb < WALL0 && (q.dmin < 0 || 2 * dist < q.dmin)) q.dmin = 2 * dist;
-        q.slack = std::max(q.slack, old_slack(G, ctor, dist));
       }
     }
     // a convex cell of a tessellation of the box is not larger than the box: garbage output must not widen the tolerances
@@ -722,12 +775,12 @@ static bool eval_grid(const Case &c, const Geo &G, const GridRec &g, int ctor, s
   // plus the conditioning allowance of the cells (boundary displaced by c_i -> dV_i <= c_i * S_i)
   {
     LD condvol = 0;
-    for (size_t i = 0; i < n; ++i) condvol += cg[i].cond * cg[i].surf;
+    for (size_t i = 0; i < n; ++i) condvol += (cg[i].cond + cg[i].slack) * cg[i].surf;
     const LD tolrel = 1e-10L + (std::isfinite((double)condvol) ? condvol / G.vbox : 0);
     st.maxd("max_volume_sum_tolerance_" + cn, (double)tolrel);
     if (!(relsum <= tolrel)) {
-      C15_VIOL("tessellation", ctor, c, "volume-sum", "sum of cell volumes %.17Lg vs box volume %.17Lg: rel. diff %.3Lg > %.3Lg (1e-10 + conditioning allowance)", vsum,
-               G.vbox, relsum, tolrel);
+      C15_VIOL("tessellation", ctor, c, "volume-sum", "sum of cell volumes %.17Lg vs box volume %.17Lg: rel. diff %.3Lg > %.3Lg (1e-10 + conditioning%s allowance)", vsum,
+               G.vbox, relsum, tolrel, ctor == 1 ? " + documented vertex tolerance" : "");
       usable = false;
     }
   }
@@ -762,12 +815,12 @@ static bool eval_grid(const Case &c, const Geo &G, const GridRec &g, int ctor, s
       st.inc("faces_checked_" + cn);
       if (!seen.insert(fr.ngb).second)
         C15_VIOL("tessellation", ctor, c, "duplicate-face", "cell %zu has two non-negligible faces with the same neighbour %#x", i, fr.ngb);
-      const LD tf = q.t + old_slack(G, ctor, dist);
+      const LD tf = q.t + q.slack;
       LD pm, dm;
       polygon_metrics(fr, pm, dm);
       if (fr.ngb >= WALL0) {
         wallarea[fr.ngb - WALL0] += fr.area;
-        walltol[fr.ngb - WALL0] += REL_AREA * fr.area + q.t * pm + G.amin;
+        walltol[fr.ngb - WALL0] += REL_AREA * fr.area + (q.t + q.slack) * pm + G.amin;
         // the grid's own wall normal must be the outward normal of that wall
         const double *wn = g.wn[fr.ngb - WALL0];
         if (!(wn[0] == (double)nrm[0] && wn[1] == (double)nrm[1] && wn[2] == (double)nrm[2]))
@@ -834,7 +887,7 @@ static bool eval_grid(const Case &c, const Geo &G, const GridRec &g, int ctor, s
     const LD aw = G.s[(ax + 1) % 3] * G.s[(ax + 2) % 3];
     const LD err = fabsl(wallarea[w] - aw);
     st.maxd("max_rel_wall_area_error_" + cn, (double)(err / aw));
-    // per-face area uncertainties (without the old construction's slack: this is a partition clause)
+    // per-face area uncertainties
     const LD tol = 1e-10L * aw + walltol[w];
     if (!(err <= tol))
       C15_VIOL("tessellation", ctor, c, "wall-area", "faces on wall %d sum to %.17Lg, wall area %.17Lg: rel. diff %.3Lg, tolerance %.3Lg", w, wallarea[w], aw,
@@ -910,7 +963,7 @@ static void compare(const Case &c, const Geo &G, const GridRec &gn, const GridRe
     const CellRec &a = gn.cells[i], &b = go.cells[i];
     const LD h = std::max(cgn[i].h, cgo[i].h);
     const LD surf = std::max(cgn[i].surf, cgo[i].surf);
-    const LD t = std::max(cgn[i].t, cgo[i].t);
+    const LD t = std::max(cgn[i].t, cgo[i].t) + cgo[i].slack; // the old cell is only defined to its documented vertex tolerance
     const LD vmax = std::max((LD)a.vol, (LD)b.vol);
     // boundary displaced by t: dV <= t*S ; centroid shift <= t*S*h/V
     const LD tolv = t * surf + 1e-12L * vmax;
@@ -940,7 +993,9 @@ static void compare(const Case &c, const Geo &G, const GridRec &gn, const GridRe
         LD pm, dm, nrm[3], dist = 0;
         polygon_metrics(fr, pm, dm);
         if (!face_plane(G, n, i, fr.ngb, nrm, dist)) continue; // reported by the faces clause
-        const LD tol = REL_AREA * fr.area + (t + cgo[i].slack) * pm + G.amin;
+        LD tn = t;
+        if (fr.ngb < n) tn = std::max(tn, std::max(cgn[fr.ngb].t, cgo[fr.ngb].t) + cgo[fr.ngb].slack); // the face is also bounded by the neighbour's planes
+        const LD tol = REL_AREA * fr.area + tn * pm + G.amin;
         st.inc("faces_compared_old_new");
         if (!((LD)fr.area - ao <= tol))
           C15_VIOL("agree", 2, c, "agree-neighbours", "cell %zu neighbour %#x: face area %.10g in the %s grid, %.10Lg%s in the %s grid (tolerance %.3Lg; %.3Lg x "
@@ -953,6 +1008,32 @@ static void compare(const Case &c, const Geo &G, const GridRec &gn, const GridRe
 
 // ---------------------------------------------------------------------------
 
+// Rule A: the corners of the all-encompassing tetrahedron as NewVoronoiGrid derives them for the exact predicates (rescaled
+// box -> NewVoronoiBox), with the arithmetic of the unrepaired constructor.  A function of the box only.
+static bool big_tetrahedron_in_range(const Case &c) {
+  const Box<> box(CV(c.a[0], c.a[1], c.a[2]), CV(c.s[0], c.s[1], c.s[2]));
+  const NewVoronoiBox vb(box);
+  CV mn, mx;
+  mn = vb.get_position(NEWVORONOICELL_BOX_CORNER0, mn);
+  mx[0] = vb.get_position(NEWVORONOICELL_BOX_CORNER1, mx).x();
+  mx[1] = vb.get_position(NEWVORONOICELL_BOX_CORNER2, mx).y();
+  mx[2] = vb.get_position(NEWVORONOICELL_BOX_CORNER3, mx).z();
+  mx -= mn;
+  mx *= (1. + DBL_EPSILON);
+  double b[3], t[3];
+  for (int k = 0; k < 3; ++k) {
+    b[k] = 1. + (box.get_anchor()[k] - mn[k]) / mx[k];
+    t[k] = 1. + (box.get_anchor()[k] + box.get_sides()[k] - mn[k]) / mx[k];
+  }
+  const NewVoronoiBox rb(Box<>(CV(b[0], b[1], b[2]), CV(t[0] - b[0], t[1] - b[1], t[2] - b[2])));
+  for (uint32_t q = 0; q < 4; ++q) {
+    CV x;
+    x = rb.get_position(NEWVORONOICELL_BOX_CORNER0 + q, x);
+    for (int k = 0; k < 3; ++k) if (!(x[k] >= 1. && x[k] < 2.)) return false;
+  }
+  return true;
+}
+
 struct Pinned {
   uint64_t seed, id;
   int fam, reg;
@@ -961,25 +1042,18 @@ struct Pinned {
   const char *what;
 };
 static const Pinned PINNED[] = {
-    // seed, case, family, regime, n, aspect, xparam (-1 / 0: as drawn for that seed and case with --stride 16; n is given wherever possible
-    // so that the witness does not depend on the size schedule)
-    {31, 11, WALL, -1, 12, 0., 0., "12 generators next to the walls: the new construction never returns"},
-    {31, 1, WALL, -1, 12, 0., 0., "12 generators, some next to a wall: new construction, volumes do not sum to the box"},
-    {600008, 12, -1, -1, 54, 0., 0., "bcc lattice 3x3x3 (54 generators): new construction returns invalid cells"},
-    {3, 1, PLATTICE, 0, 216, 100., 0., "6x6x6 lattice perturbed by 7e-8 spacings in a 1:100 box: new construction, twin faces differ"},
-    {3, 30, PLATTICE, 0, 216, 100., 0., "6x6x6 lattice perturbed by ~1e-8 spacings in a 1:100 box: new construction never returns"},
-    {600002, 38, -1, -1, 75, 0., 0., "75 generators in tight blobs: old construction segfaults"},
-    {300016, 3, -1, -1, 245, 0., 0., "245 generators next to the walls of a 1:68 box: old construction segfaults"},
-    {600008, 35, -1, -1, 64, 0., 0., "64 generators in tight blobs: old construction, twin faces differ"},
-    {600003, 8, -1, -1, 8, 0., 0., "2x2x2 lattice perturbed by ~1e-8 spacings: old construction, volumes do not sum to the box"},
-    {600006, 32, -1, -1, 234, 0., 0., "234 uniform generators in an elongated box: old construction, volumes do not sum to the box"},
-    {4, 35, COPLANAR, 1, 350, 70., 0., "350 nearly coplanar generators, 1:70 box: old construction, volumes do not sum to the box"},
-    {4, 25, WALL, 2, 800, 0., 0., "800 uniform generators, one next to a wall: old construction, volumes do not sum to the box"},
-    {100015, 3, -1, -1, 1048, 0., 0., "1048 uniform generators in a cube: old and new volumes differ by 1e-8"},
-    {600009, 3, -1, -1, 18, 0., 0., "18 clustered generators: old and new volumes differ"},
-    {5, 9, COPLANAR, 0, 355, 60., 0., "355 nearly coplanar generators, 1:60 box: old and new volumes differ"},
-    {600003, 0, -1, -1, 161, 0., 0., "161 nearly cospherical generators: old and new volumes differ"},
-    {600000, 20, -1, -1, 27, 0., 0., "3x3x3 lattice perturbed by <1e-6 spacings: old and new volumes differ"},
+    // seed, case, family, regime, n, aspect, xparam: the generator set is make_case(seed, case) with these parameters forced
+    // (--stride 16; aspect / xparam 0: as drawn).  Violations of witness k get the keys pinned-<k>/<clause>/<construction>.
+    {6, 32, WALL, 2, 60, 0., 1e-6, "60 uniform generators, one of them 1e-6 sides from a wall, box at the origin with sides 4.58e11 x 2.45e12 x 5.93e11"},
+    {31, 1, WALL, 1, 12, 0., 0., "12 generators, 5 of them at 1e-12..1e-9 sides from a wall"},
+    {600008, 12, LATTICE, 1, 54, 0., 0., "exact bcc lattice 3x3x3 (54 generators) in a cubic box"},
+    {3, 1, PLATTICE, 0, 216, 100., 0., "6x6x6 lattice displaced by 7e-8 spacings, box sides 1 x 100 x 4.58"},
+    {3, 30, PLATTICE, 0, 216, 100., 0., "6x6x6 lattice displaced by 9e-9 spacings, box sides 55506 x 2938 x 293820"},
+    {600002, 38, CLUSTER, 0, 75, 0., 0., "75 generators in two blobs of sigma 2e-4 x the smallest side, box 1 x 5.2 x 39"},
+    {300016, 3, WALL, 0, 245, 0., 0., "245 generators along the walls and edges of a 29 x 1 x 68 box"},
+    {700001, 16, PLATTICE, 0, 1728, 0., 0., "12x12x12 lattice displaced by 1e-6 spacings (less than the old vertex tolerance) in the unit cube"},
+    {600006, 32, UNIFORM, 2, 234, 0., 0., "regression: 234 uniform generators in a 1:55 box (old construction inside its documented accuracy)"},
+    {100015, 3, UNIFORM, 0, 1048, 0., 0., "regression: 1048 uniform generators in a cube (old and new agree to the documented accuracy of the old one)"},
 };
 static const size_t NPINNED = sizeof(PINNED) / sizeof(PINNED[0]);
 
@@ -1006,6 +1080,8 @@ int main(int argc, char **argv) {
   // pinned witnesses: fixed generator sets (fixed seed/case/family/regime/size/aspect/parameter) that are part of every
   // run, so that the findings they witness are reported under the same keys whatever VERIF_SEED is.
   const int64_t pinned = (int64_t)vh::arg_u64(argc, argv, "--pinned", (uint64_t)-1);
+  g_pinned = pinned;
+  g_avoid = vh::arg_str(argc, argv, "--avoid", "");
   if (pinned >= 0) {
     if (pinned >= (int64_t)NPINNED) { std::printf("DONE violations=0 (no such pinned case)\n"); return 0; }
     const Pinned &P = PINNED[pinned];
@@ -1060,6 +1136,29 @@ int main(int argc, char **argv) {
     G.eps_old = (LD)OLDVORONOI_TOLERANCE * (G.s[0] * G.s[0] + G.s[1] * G.s[1] + G.s[2] * G.s[2]);
     G.x.resize(3 * n);
     for (size_t i = 0; i < n; ++i) for (int k = 0; k < 3; ++k) G.x[3 * i + k] = c.pos[i][k];
+    G.nn.assign(n, -1);
+    for (size_t i = 0; i < n; ++i)
+      for (size_t j = i + 1; j < n; ++j) {
+        LD d2 = 0;
+        for (int k = 0; k < 3; ++k) { const LD d = G.x[3 * i + k] - G.x[3 * j + k]; d2 += d * d; }
+        const LD d = sqrtl(d2);
+        if (G.nn[i] < 0 || d < G.nn[i]) G.nn[i] = d;
+        if (G.nn[j] < 0 || d < G.nn[j]) G.nn[j] = d;
+      }
+    G.nnmin = G.nn[0];
+    for (size_t i = 1; i < n; ++i) G.nnmin = std::min(G.nnmin, G.nn[i]);
+    // ---- input rules (random part only) ----
+    bool skip[2] = {false, false};
+    if (c.moved_by_rule_B) st.inc("rule_B_cases_with_generators_moved_to_1e-5_side_from_a_wall");
+    if (avoid('B') && fam == WALL) st.inc("rule_B_wall_family_cases_generated_at_1e-5_to_1e-3_side_from_the_walls");
+    if (avoid('A') && !big_tetrahedron_in_range(c)) { skip[0] = true; st.inc("rule_A_new_skipped_rescaled_corners_outside_1_2"); }
+    if (avoid('C') && c.fam == LATTICE && c.lattice_kind == 2 && c.s[0] == c.s[1] && c.s[1] == c.s[2]) {
+      if (!skip[0]) st.inc("rule_C_new_skipped_bcc_lattice_in_cubic_box");
+      skip[0] = true;
+    }
+    if (avoid('O') && fam != LATTICE && G.nnmin < 20 * sqrtl((LD)OLDVORONOI_TOLERANCE) * G.diag) { skip[1] = true; st.inc("rule_O_old_skipped_separation_below_20_sqrt_tol_box"); }
+    if (avoid('D') && !skip[1] && fam == PLATTICE && c.amp_abs < 10 * 8 * (double)(G.eps_old / G.nnmin)) { skip[1] = true; st.inc("rule_D_old_skipped_lattice_displacement_below_10_delta"); }
+    if (skip[0] && (skip[1] || fam == LATTICE)) st.inc("cases_skipped_by_the_input_rules_for_both_constructions");
 
     if (dump) {
       FILE *f = std::fopen(dump, "w");
@@ -1077,6 +1176,7 @@ int main(int argc, char **argv) {
     bool have[2] = {false, false};
     for (int ctor = 0; ctor < 2; ++ctor) {
       if (only_ctor != 2 && only_ctor != ctor) continue;
+      if (skip[ctor]) continue;
       if (ctor == 1 && fam == LATTICE) { st.inc("old_skipped_exactly_degenerate"); continue; } // outside the stated domain of the old construction
       run_grid(c, ctor, gr[ctor]);
       GridRec &g = gr[ctor];
